@@ -194,7 +194,16 @@ func init() {
 			return nil
 		},
 		rtPkg + "PermuteMaps": func(fr *frame, a []value) value {
-			needPath(fr).permute = a[0].(bool)
+			p := needPath(fr)
+			p.permute = a[0].(bool)
+			p.permuteIn = ""
+			return nil
+		},
+		rtPkg + "PermuteMapsIn": func(fr *frame, a []value) value {
+			// PermuteMapsIn(substr): arbitrary iteration order for maps ranged in functions whose name contains substr
+			p := needPath(fr)
+			p.permuteIn = mustConcStr(a[0], "PermuteMapsIn")
+			p.permute = p.permuteIn != ""
 			return nil
 		},
 		rtPkg + "IgnoreGo": func(fr *frame, a []value) value {
